@@ -30,6 +30,7 @@ def ensure_wt():
     if not os.path.isdir(WT):
         os.makedirs(os.path.dirname(WT), exist_ok=True)
         sh(f"git -C /repo worktree add --detach {WT} {head}")
+    sh(f"git -C {WT} reset -q --hard; git -C {WT} clean -fdqx")
     sh(f"git -C {WT} checkout -q --detach {head}")
     clean()
     return head
